@@ -6,6 +6,7 @@ import (
 	"fmt"
 	"go/ast"
 	"go/parser"
+	"go/printer"
 	"go/token"
 	"strconv"
 	"strings"
@@ -58,6 +59,49 @@ type FuncSpec struct {
 	NoPanicOnly bool
 	GhostLocals []GhostLocal
 	CutAfter    []string // "NAME#k": paths end after this call (only the prefix is under contract)
+	Names       []string // explicit receiver/parameter names given in the key: "T.M(recv, a, b)"
+	Implements  string   // key of the interface-method contract this function must satisfy
+}
+
+// splitKeyNames splits "Type.Method(recv, a, b)" into the key and the explicit names.
+func splitKeyNames(s string) (string, []string) {
+	i := strings.Index(s, "(")
+	if i < 0 || !strings.HasSuffix(s, ")") {
+		return strings.TrimSpace(s), nil
+	}
+	var names []string
+	for _, n := range strings.Split(s[i+1:len(s)-1], ",") {
+		names = append(names, strings.TrimSpace(n))
+	}
+	return strings.TrimSpace(s[:i]), names
+}
+
+// renameClause returns the clause with identifiers renamed (field selectors are not touched).
+func renameClause(c Clause, alias map[string]string) Clause {
+	if len(alias) == 0 {
+		return c
+	}
+	e, err := parseSpecExpr(c.Src)
+	if err != nil {
+		return c
+	}
+	skip := map[*ast.Ident]bool{}
+	ast.Inspect(e, func(n ast.Node) bool {
+		switch x := n.(type) {
+		case *ast.SelectorExpr:
+			skip[x.Sel] = true
+		case *ast.Ident:
+			if !skip[x] {
+				if to, ok := alias[x.Name]; ok {
+					x.Name = to
+				}
+			}
+		}
+		return true
+	})
+	var sb strings.Builder
+	printer.Fprint(&sb, token.NewFileSet(), e)
+	return Clause{Src: sb.String(), Expr: e, Line: c.Line}
 }
 
 type GhostLocal struct {
@@ -192,8 +236,9 @@ func (cs *Contracts) parseFile(fset *token.FileSet, f *ast.File, pkgPath string)
 		kw, rest := splitWord(ln)
 		switch kw {
 		case "func", "iface":
-			cur = &FuncSpec{Key: rest, Kind: kw, PkgPath: pkgPath, Loops: map[int]*LoopSpec{}, Line: loc}
-			k := pkgPath + "." + rest
+			key, names := splitKeyNames(rest)
+			cur = &FuncSpec{Key: key, Names: names, Kind: kw, PkgPath: pkgPath, Loops: map[int]*LoopSpec{}, Line: loc}
+			k := pkgPath + "." + key
 			if _, dup := cs.Funcs[k]; dup {
 				cs.errf(loc, "duplicate contract for %s", k)
 			}
@@ -206,12 +251,12 @@ func (cs *Contracts) parseFile(fset *token.FileSet, f *ast.File, pkgPath string)
 				cur = nil
 				continue
 			}
-			cur = &FuncSpec{Key: r2, Kind: "assume", PkgPath: pkgPath, Loops: map[int]*LoopSpec{}, Line: loc, Trusted: "external function (assumed contract)"}
-			k := "ext." + r2
-			if old, dup := cs.Funcs[k]; dup {
-				// the same external contract may be restated in several packages only if identical text follows; keep first
-				_ = old
-				cur = &FuncSpec{Key: r2, Kind: "assume-dup", PkgPath: pkgPath, Loops: map[int]*LoopSpec{}, Line: loc}
+			akey, anames := splitKeyNames(r2)
+			cur = &FuncSpec{Key: akey, Names: anames, Kind: "assume", PkgPath: pkgPath, Loops: map[int]*LoopSpec{}, Line: loc, Trusted: "external function (assumed contract)"}
+			k := "ext." + akey
+			if _, dup := cs.Funcs[k]; dup {
+				// an external contract is stated once; a second statement (in another package) is ignored
+				cur = &FuncSpec{Key: akey, Kind: "assume-dup", PkgPath: pkgPath, Loops: map[int]*LoopSpec{}, Line: loc}
 				continue
 			}
 			cs.Funcs[k] = cur
@@ -231,6 +276,10 @@ func (cs *Contracts) parseFile(fset *token.FileSet, f *ast.File, pkgPath string)
 		case "inline":
 			if cur != nil {
 				cur.Inline = true
+			}
+		case "implements":
+			if cur != nil {
+				cur.Implements = rest
 			}
 		case "trusted":
 			if cur != nil {
